@@ -124,13 +124,17 @@ func c05(x *Ctx) {
 				}
 			}
 			badVal := ""
-			r := eng.Explore(eng.Query{Fn: f, Assume: as, Start: start, Classify: func(in ssa.Instruction, _ eng.Facts) eng.Event {
+			r := eng.Explore(eng.Query{Fn: f, Assume: as, Start: start, TrackPhi: func(*ssa.Phi) bool { return true }, Classify: func(in ssa.Instruction, F eng.Facts) eng.Event {
 				if h != nil && in == h.Instrs[0] {
 					return eng.EvKill
 				}
 				if k, cl, ok := payloadSetKey(in); ok && k == dryKey && payloadOf(eng.Receiver(cl), span) {
 					val := eng.CallArgs(cl)[1]
-					if _, ok := eng.Derives(val, sources[fname], eng.FlowOpts{}); !ok {
+					if mi, ok := val.(*ssa.MakeInterface); ok {
+						val = mi.X
+					}
+					// the value on this path (phis resolved) must be the decision itself
+					if _, ok := eng.Derives(F.Resolve(val), sources[fname], eng.FlowOpts{Stop: func(v ssa.Value) bool { _, isPhi := v.(*ssa.Phi); return isPhi && F.Resolve(v) != v }}); !ok {
 						badVal = x.Pos(in)
 					}
 					return eng.EvKill
@@ -152,7 +156,7 @@ func c05(x *Ctx) {
 			}
 		}
 	}
-	c.Min(rMark, 3)
+	c.Min(rMark, 2)
 	// shouldSend carries the sampler's keep
 	if md := x.Fn(rMark, "collect", "CollectorWorker", "makeDecision"); md != nil {
 		n := 0
@@ -195,4 +199,17 @@ func c05(x *Ctx) {
 		c.Decide(ok && n > 0, rMerge, "merge/dry-run-branch", x.PosOf(mf.Pos()), "dry run: span keeps max(client rate,1)", "in dry-run mode the span's SampleRate is changed to something other than the floored client rate")
 	}
 	c.Min(rMerge, 4)
+
+	// the dry-run flag is read per trace, not frozen before a long-lived loop
+	const rLive = "C05.dryrun-read-when-used"
+	for _, s := range eng.CallSites(x.PkgFuncs("collect"), func(n string, _ ssa.CallInstruction) bool { return n == nIsDryRun }) {
+		c.Examined++
+		frozen, use := frozenBeforeServiceLoop(s.Instr)
+		if frozen {
+			c.Violate(rLive, eng.Root(s.Fn).Name()+"/GetIsDryRun", x.Pos(s.Instr), "IsDryRun (reload: true) is read once before the function's long-lived channel loop and used inside it at "+x.Pos(use)+": after a reload the forwarding goroutine keeps the old mode while send()/dealWithSentTrace use the new one")
+		} else {
+			c.Hold(rLive, eng.Root(s.Fn).Name()+"/GetIsDryRun", x.Pos(s.Instr), "read where it is used")
+		}
+	}
+	c.Min(rLive, 4)
 }
